@@ -358,6 +358,176 @@ def stage_call_names(rep, rng, names):
     return bad
 
 
+def stage_w_rule(rep, rng, names, n):
+    """W tie of whole rules: Makefile._write_rule against MakeHeader.write_rule (target-specific variables, .PHONY,
+    header, the three recipe forms) and, for plain names, against the pure header_text the theorem C04_make_rule_rt is
+    about; directory sentinels (directory_deps) and the patsubst call of directory_rule."""
+    from bfg9000.backends.make.syntax import Makefile, Rule, Variable, Function, Pattern, Silent, Syntax, var
+    from bfg9000.backends.make.writer import directory_deps, dir_sentinel
+    from bfg9000.path import Path
+    from . import c01
+    uw, us = gen.uni_tables()
+    calls, impl = [], []
+    mk = Makefile('build.bfg')
+    pool = [x for x in names if '\n' not in x] + ['a$b', '$', 'x y', '~t', 'p|q', 'a:b']
+
+    def pick(k):
+        return [rng.choice(pool) for _ in range(k)]
+    for i in range(n):
+        ts, ds, os_ = pick(rng.randint(1, 3)), pick(rng.choice([0, 1, 2, 3])), pick(rng.choice([0, 0, 1, 2]))
+        w = mk.writer(StringIO())
+        mk._write_rule(w, Rule(ts, ds, os_, None, {}, False))
+        text = w.stream.getvalue()
+        assert text.endswith('\n\n')
+        calls.append(('make.header_text', [us, ts, ds, os_])); impl.append(text[:-2])
+        rep.case('hdr:%r' % ((ts, ds, os_),), True)
+        # the general rule
+        tv_enc, tv_py = [], {}
+        for _ in range(rng.choice([0, 0, 1, 2])):
+            nm = rng.choice(['CFLAGS', 'LD FLAGS', 'x'])
+            if var(nm) in tv_py:
+                continue
+            ws = [gen.arg_string(rng, None, maxlen=6) for _ in range(rng.randint(1, 3))]
+            tv_enc.append([nm, [[[2, x]] for x in ws]]); tv_py[var(nm)] = ws
+        phony = rng.random() < 0.4
+        k = rng.random()
+        if k < 0.3:
+            r_enc, r_py = [], None
+        elif k < 0.5:
+            v = var(rng.choice(['X', 'RULE', '@']))
+            r_enc, r_py = [0, [[[0, v.use().string]]]], v
+        else:
+            ls_enc, ls_py = [], []
+            for _ in range(rng.randint(0, 3)):
+                ws = [gen.arg_string(rng, None, maxlen=6) for _ in range(rng.randint(1, 3))]
+                sil = rng.random() < 0.4
+                ls_enc.append([sil, [[[2, x]] for x in ws]]); ls_py.append(Silent(ws) if sil else ws)
+            r_enc, r_py = [1, ls_enc], ls_py
+        w = mk.writer(StringIO())
+        try:
+            mk._write_rule(w, Rule(ts, ds, os_, r_py, tv_py, phony))
+            iv = w.stream.getvalue()
+        except ValueError:
+            iv = None
+        enc_names = lambda l: [[[2, x]] for x in l]
+        calls.append(('make.write_rule', [uw, us, tv_enc, phony, enc_names(ts), enc_names(ds), enc_names(os_), r_enc])); impl.append(iv)
+    # directory sentinels
+    for nme in pool:
+        for depth in (1, 2):
+            try:
+                comps = [nme] * depth + ['out.o']
+                pth = Path('/'.join(comps))
+                if pth.suffix != '/'.join(comps):
+                    continue
+                sent = directory_deps([pth])
+            except ValueError:
+                continue
+            if len(sent) != 1:
+                continue
+            calls.append(('make.sentinel_of', [pth.parent().suffix])); impl.append(sent[0].suffix)
+    w = mk.writer(StringIO())
+    import os as _os
+    esc = w.write(Function('patsubst', Pattern(_os.path.join('%', dir_sentinel)), Pattern('%'), var('@'), quoted=True), Syntax.shell)
+    calls.append(('make.function', [uw, us, 'patsubst', [[[[0, '%'], [2, '/.dir']]], [[[0, '%']]], [[[0, '$@']]]], True, c01.SYN['shell']]))
+    impl.append((w.stream.getvalue(), bool(esc)))
+
+    def dec(name, r):
+        if name in ('make.header_text', 'make.sentinel_of'):
+            return d_str(r)
+        if name == 'make.function':
+            return d_opt(lambda x: (d_str(x[0]), d_bool(x[1])), r)
+        return d_opt(d_str, r)
+    return common.compare_model(rep, 'W:_write_rule/header_text/directory sentinel', calls, impl, dec)
+
+
+def stage_r_header(rep, rng, names, n):
+    """R validation of MakeHeader.parse_rule_header and patsubst_dir_text against /usr/bin/make: headers of names inside the
+    guard of C04_make_rule_rt are written with header_text, every target logs its own name and the number of words of its
+    prerequisite / order-only lists, every prerequisite logs its own name."""
+    _, us = gen.uni_tables()
+    ok = [x for x, r in zip(names, common.model_batch([('make.name_ok', [us, x]) for x in names])) if d_bool(r[0]) and d_bool(r[1])]
+    ok = [x for x in ok if '$' not in x]
+    bad = done = 0
+    for _ in range(n):
+        pickn = rng.sample(ok, min(len(ok), 6))
+        ts, rest = pickn[:rng.randint(1, 2)], pickn[2:]
+        ds = rest[:rng.randint(0, 2)]
+        os_ = [x for x in rest[2:2 + rng.choice([0, 1, 2])] if '|' not in x]      # a bar in an order-only name: C04_make_rule_oo_bar_refuted
+        raw = common.model_batch([('make.header_text', [us, ts, ds, os_]), ('make.header_text', [us, ['all'], ts, []])] +
+                                 [('make.header_text', [us, [x], [], []]) for x in ds + os_])
+        hdr, all_hdr, pre = d_str(raw[0]), d_str(raw[1]), [d_str(x) for x in raw[2:]]
+        mp = common.model_batch([('make.parse_rule_header', [hdr])])[0]
+        mv = d_opt(lambda x: (d_list(d_str, x[0]), d_list(d_str, x[1]), d_list(d_str, x[2])), mp)
+        d = common.scratch('c04h')
+        try:
+            log = os.path.join(d, 'LOG')
+            mk = all_hdr + '\n' + hdr + '\n\t@$(file >>%s,T <$@> $(words $^) $(words $|))\n' % log
+            mk += ''.join(h + '\n\t@$(file >>%s,P <$@>)\n' % log for h in pre)
+            with open(os.path.join(d, 'Makefile'), 'w') as f:
+                f.write(mk)
+            p = subprocess.run(['make', '--no-print-directory'], cwd=d, env={'PATH': '/usr/bin:/bin', 'LC_ALL': 'C.UTF-8'},
+                               capture_output=True, timeout=20)
+            lines = open(log, encoding='utf-8', errors='replace').read().split('\n') if os.path.exists(log) else []
+        finally:
+            shutil.rmtree(d, ignore_errors=True)
+        nw = lambda l: sum(len(x.split()) for x in l)
+        want = sorted(['T <%s> %d %d' % (t, nw(ds), nw(os_)) for t in ts] + ['P <%s>' % x for x in ds + os_])
+        got = sorted(x for x in lines if x)
+        done += 1
+        rep.case('rh:' + hdr, True)
+        if mv != (ts, ds, os_) or p.returncode != 0 or got != want:
+            bad += 1
+            rep.fail('R:make_rule_header - header %r: declared %r, model parse %r, make rc %d log %r' % (hdr, (ts, ds, os_), mv, p.returncode, got),
+                     {'obligation': 'R:make_rule_header', 'header': hdr, 'declared': [ts, ds, os_], 'model': mv, 'make_log': got,
+                      'out': (p.stdout + p.stderr).decode('utf-8', 'replace')[-300:]}, found_input=False)
+    # hand-written headers, in particular the bar after the order-only separator: the expected log is computed from the
+    # model's parse, the prerequisites get rules written with the reference escaping
+    for hdr in ['t: | x\\|y', 't: a\\|b | c', 't: a\\|b c\\ d | e\\|f g', 't u: d', 't:', 't: |', 't: a\\:b | c\\#d']:
+        mv = d_opt(lambda x: (d_list(d_str, x[0]), d_list(d_str, x[1]), d_list(d_str, x[2])),
+                   common.model_batch([('make.parse_rule_header', [hdr])])[0])
+        if mv is None:
+            continue
+        ts, ds, os_ = mv
+        d = common.scratch('c04h')
+        try:
+            log = os.path.join(d, 'LOG')
+            mk = 'all: ' + ' '.join(reference_escape(t, 'dep') for t in ts) + '\n' + hdr + '\n\t@$(file >>%s,T <$@> $(words $^) $(words $|))\n' % log
+            mk += ''.join(reference_escape(x, 'target') + ':\n\t@$(file >>%s,P <$@>)\n' % log for x in ds + os_)
+            with open(os.path.join(d, 'Makefile'), 'w') as f:
+                f.write(mk)
+            p = subprocess.run(['make', '--no-print-directory'], cwd=d, env={'PATH': '/usr/bin:/bin', 'LC_ALL': 'C.UTF-8'},
+                               capture_output=True, timeout=20)
+            lines = open(log, encoding='utf-8', errors='replace').read().split('\n') if os.path.exists(log) else []
+        finally:
+            shutil.rmtree(d, ignore_errors=True)
+        nw = lambda l: sum(len(x.split()) for x in l)
+        want = sorted(['T <%s> %d %d' % (t, nw(ds), nw(os_)) for t in ts] + ['P <%s>' % x for x in ds + os_])
+        got = sorted(x for x in lines if x)
+        done += 1
+        rep.case('rh:' + hdr, True)
+        if p.returncode != 0 or got != want:
+            bad += 1
+            rep.fail('R:make_rule_header - header %r: model parse %r, make rc %d log %r' % (hdr, mv, p.returncode, got),
+                     {'obligation': 'R:make_rule_header', 'header': hdr, 'model': mv, 'make_log': got,
+                      'out': (p.stdout + p.stderr).decode('utf-8', 'replace')[-300:]}, found_input=False)
+    # patsubst on sentinels
+    cases = [x + '/.dir' for x in ['a', 'a b', 'a  b', 'prog.int/d r/e f', 'x/.dir y', '.dir', 'a/.dirx', 'a/.dir/.dir']] + \
+            [x + '/.dir' for x in rng.sample(ok, min(len(ok), 12))]
+    cases = [x for x in cases if not any(ch in x for ch in '$#\t') and not x.startswith(('-', ' ')) and not x.endswith(' ')]
+    raw = common.model_batch([('make.patsubst_dir', [x]) for x in cases])
+    for x, r in zip(cases, raw):
+        mv = d_str(r)
+        rc, _, out = shtools.make_run('X := $(patsubst %%/.dir,%%,%s)\n$(info [$(X)])\nall:;@:\n' % x.replace('%', '%%') if False else
+                                      'override W := %s\n$(info [$(patsubst %%/.dir,%%,$(W))])\nall:;@:\n' % x)
+        rv = out[1:out.rindex(']')] if rc == 0 and out.startswith('[') else None
+        rep.case('ps:' + x, True)
+        if rv != mv:
+            bad += 1
+            rep.fail('R:make_patsubst - patsubst %%/.dir,%% on %r: model %r, make %r' % (x, mv, rv),
+                     {'obligation': 'R:make_patsubst', 'word': x, 'model': mv, 'make': rv}, found_input=False)
+    rep.stage('R:rule header / patsubst', headers=done, patsubst=len(cases), disagreements=bad)
+
+
 def run(rep):
     rng = random.Random(rep.seed)
     thorough = rep.tier == 'thorough'
@@ -366,6 +536,8 @@ def run(rep):
     for n in names[:5]:
         rep.sample({'name': n})
     dis = stage_w(rep, rng, names)
+    dis += stage_w_rule(rep, rng, names, 400 if thorough else 120)
+    stage_r_header(rep, rng, names, 150 if thorough else 30)
     found = stage_make(rep, rng, names)
     found += stage_make_recipe_names(rep, rng, names if thorough else names[::3])
     found += stage_call_names(rep, rng, names if thorough else names[1::3])
